@@ -20,7 +20,8 @@ PIN = os.path.join(VERIF, "pins", "layout-236b7b1.json.gz")
 RULE = (
     "complete enumeration: one case per (table module, item) [well-formedness + pinned layout], "
     "one per table module [advertised keys, version/file name, platform module, begin/end, pin of "
-    "table attributes], one per platform x cfg x log combination [FILES naming round trip]. "
+    "table attributes], one per platform x cfg x log combination [FILES naming round trip], and connections of the real async and "
+    "blocking client to a simulated spa for triples that name every shipped cfg and log module once [the clients' own module lookup]. "
     "Every case is non-trivial (a real shipped item/table/combination); distinct by (module, tag)."
 )
 ASSUMPTIONS = [
@@ -129,6 +130,8 @@ def enumerated(tier):
     ix = _index()
     n_items, n_mod, n_combo = len(ix["items"]), len(ix["modules"]), len(ix["combos"])
 
+    lookups = _lookup_cases()
+
     def fn(i):
         if i < n_items:
             m, t = ix["items"][i]
@@ -137,9 +140,30 @@ def enumerated(tier):
         if i < n_mod:
             return {"k": "module", "m": ix["modules"][i]}
         i -= n_mod
-        return {"k": "combo", "c": list(ix["combos"][i])}
+        if i < n_combo:
+            return {"k": "combo", "c": list(ix["combos"][i])}
+        i -= n_combo
+        return dict(lookups[i], k="lookup")
 
-    return n_items + n_mod + n_combo, fn
+    return n_items + n_mod + n_combo + len(lookups), fn
+
+
+_LOOKUPS = None
+
+
+def _lookup_cases():
+    """(platform, cfg, log) triples that together name every shipped cfg and every shipped log module once, for both clients"""
+    global _LOOKUPS
+    if _LOOKUPS is None:
+        out = []
+        for plat, v in sorted(packs.platforms().items()):
+            n = max(len(v["cfg"]), len(v["log"]))
+            for i in range(n):
+                cv, lv = v["cfg"][i % len(v["cfg"])], v["log"][i % len(v["log"])]
+                for client in ("async", "blocking"):
+                    out.append({"c": [plat, cv, lv], "client": client})
+        _LOOKUPS = out
+    return _LOOKUPS
 
 
 # ------------------------------------------------------------------ oracles
@@ -291,10 +315,77 @@ def _check_combo(res, plat, cv, lv):
                 res.fail(sig + "|module-missing", f"{g} not shipped")
 
 
+def _check_lookup(res, plat, cv, lv, client):
+    """the clients' own module lookup: a spa that reports this platform / cfg / log in its FILES reply must end up with exactly
+    the shipped table modules of that name (the real connection code runs against the in-process simulator)"""
+    from geckolib.driver import GeckoStructure
+    from geckolib.utils.snapshot import GeckoSnapshot
+    from .. import clients, stepped, vworld
+
+    pack = packs.real_module(plat).GeckoPack(GeckoStructure(None))
+    snap = GeckoSnapshot()
+    snap._pack_type = pack.name
+    snap._config_version, snap._log_version = str(cv), str(lv)
+    snap._intouch_EN, snap._intouch_CO = ("88", "15", "0"), ("89", "11", "0")
+    snap._bytes = bytes(packs.BLOCK)
+    sim = vworld.make_simulator(snap)
+    want = (f"geckolib.driver.packs.{plat}", f"geckolib.driver.packs.{plat}-cfg-{cv}", f"geckolib.driver.packs.{plat}-log-{lv}")
+    sig = f"C18|lookup|{client}|{plat}"
+    got = None
+    # Only the lookup is judged here: which table modules the client ends up with.  (Whether the rest of the connection copes
+    # with a pack that lacks PackType / PackConfID items is not a naming question.)
+    if client == "async":
+        W = vworld.World()
+        peer = W.add_peer(sim)
+        out = {}
+
+        async def main(W):
+            from geckolib import GeckoAsyncSpa, GeckoAsyncSpaDescriptor, AsyncTasks
+            tm = AsyncTasks()
+            await tm.__aenter__()
+            ev = clients.Events(W)
+            spa = GeckoAsyncSpa(clients.CLIENT_ID, GeckoAsyncSpaDescriptor(sim.vp_identifier, sim.vp_name, peer.addr), tm, ev)
+            try:
+                try:
+                    await spa.connect()
+                except KeyError as exc:
+                    out["later"] = repr(exc)
+                out["mods"] = tuple(type(x).__module__ if x is not None else None for x in (spa.pack_class, spa.config_class, spa.log_class))
+                out["events"] = [e[1].name for e in ev.log if "CANNOT" in e[1].name or "EXCEEDED" in e[1].name]
+            finally:
+                await spa.disconnect()
+                await clients.shutdown(tm)
+
+        W.run(main)
+        got = out.get("mods")
+        if out.get("events"):
+            res.fail(sig + "|not-found", f"a spa reporting {pack.name} C{cv:02}/S{lv:02}: the client reports {out['events']}; modules {got}")
+            return
+    else:
+        eng = stepped.Engine()
+        with eng.patched():
+            spa = stepped.make_threaded_spa(eng, sim)
+            spa.start_connect()
+            try:
+                stepped.run_until(eng, lambda: (spa._is_connected or spa.is_in_error or spa.new_log_class is not None) and not eng.inbox, max_iterations=6000)
+            except KeyError:
+                pass
+            except Exception as exc:  # noqa  (the library raises plain Exception when a table module is missing)
+                res.fail(sig + "|not-found", f"blocking client, spa reporting {pack.name} C{cv:02}/S{lv:02}: {type(exc).__name__}: {exc}")
+                return
+            got = tuple(type(x).__module__ if x is not None else None for x in (spa.new_pack_class, spa.new_config_class, spa.new_log_class))
+    if got != want:
+        res.fail(sig + "|wrong-module", f"spa reports {pack.name} C{cv:02}/S{lv:02}: client loaded {got}, shipped tables are {want}")
+
+
 def run_case(case) -> Result:
     res = Result()
     res.nontrivial = True
     k = case.get("k")
+    if k == "lookup":
+        _check_lookup(res, case["c"][0], int(case["c"][1]), int(case["c"][2]), case.get("client", "async"))
+        res.label("lookup-" + case.get("client", "async"))
+        return res
     if k == "item":
         _check_item(res, case["m"], case["tag"])
         res.label("item")
